@@ -44,9 +44,50 @@ pub enum DropPoint {
     /// everything flushed (pool idle), then exactly one more complete unit is written and the object
     /// is dropped immediately
     IdleThenUnitThenDrop,
+    /// the source (readers) or the sink (writers) panics in the middle of a call; the object is
+    /// dropped by the unwinding
+    Unwinding,
 }
 
 pub const WORKER_REQUESTS: [u32; 9] = [0, 1, 2, 3, 16, 256, 257, 1000, u32::MAX];
+
+/// Source / sink of the harness that panics in its n-th read or write call (seeks do not count).
+struct PanicAt<T> {
+    inner: T,
+    calls_left: usize,
+}
+
+impl<T> PanicAt<T> {
+    fn tick(&mut self) {
+        if self.calls_left == 0 {
+            panic!("HARNESS-INJECTED panic in the caller's source/sink");
+        }
+        self.calls_left -= 1;
+    }
+}
+
+impl<T: Read> Read for PanicAt<T> {
+    fn read(&mut self, buf: &mut [u8]) -> std::io::Result<usize> {
+        self.tick();
+        self.inner.read(buf)
+    }
+}
+
+impl<T: std::io::Seek> std::io::Seek for PanicAt<T> {
+    fn seek(&mut self, pos: std::io::SeekFrom) -> std::io::Result<u64> {
+        self.inner.seek(pos)
+    }
+}
+
+impl<T: Write> Write for PanicAt<T> {
+    fn write(&mut self, buf: &[u8]) -> std::io::Result<usize> {
+        self.tick();
+        self.inner.write(buf)
+    }
+    fn flush(&mut self) -> std::io::Result<()> {
+        self.inner.flush()
+    }
+}
 
 pub fn run_case(ctx: &Ctx, idx: u64) -> Vec<CaseOut> {
     let mut r = ctx.rng(idx);
@@ -76,6 +117,7 @@ pub fn run_case(ctx: &Ctx, idx: u64) -> Vec<CaseOut> {
             DropPoint::AfterFailedFinish,
             DropPoint::IdleThenUnitThenDrop,
             DropPoint::IdleThenUnitThenDrop,
+            DropPoint::Unwinding,
         ])
     };
     let requested = if idx < STEER { 2 } else { *r.pick(&WORKER_REQUESTS) };
@@ -145,8 +187,44 @@ pub fn run_case(ctx: &Ctx, idx: u64) -> Vec<CaseOut> {
     let io_amount = r.usize_below(len + 1);
     let s2 = stream.clone();
     let d2 = data.clone();
+    let panic_call = r.usize_below(6);
     let g = mt::guarded(3000, 90_000, move || {
         // everything including the drop happens on this thread
+        if point == DropPoint::Unwinding {
+            // the panic is raised by the harness's own source / sink and caught right here; what is
+            // judged is only what the library's Drop does while the thread is unwinding
+            let _ = std::panic::catch_unwind(std::panic::AssertUnwindSafe(|| {
+                if reader {
+                    let mut sink = Vec::new();
+                    if lzip {
+                        if let Ok(mut rd) = LZIPReaderMT::new(PanicAt { inner: Cursor::new(s2.clone()), calls_left: 3 + panic_call }, requested) {
+                            let _ = rd.read_to_end(&mut sink);
+                        }
+                    } else {
+                        let mut rd = LZMA2ReaderMT::new(PanicAt { inner: Cursor::new(s2.clone()), calls_left: panic_call }, 4096, None, requested);
+                        let _ = rd.read_to_end(&mut sink);
+                    }
+                } else {
+                    let sink = PanicAt { inner: Cursor::new(Vec::new()), calls_left: panic_call };
+                    if lzip {
+                        let o = LZIPOptions { lzma_options: fast_opts(4096), member_size: NonZeroU64::new(unit as u64) };
+                        if let Ok(mut w) = LZIPWriterMT::new(sink, o, requested) {
+                            let _ = w.write_all(&d2);
+                            let _ = w.flush();
+                            let _ = w.finish();
+                        }
+                    } else {
+                        let o = LZMA2Options { lzma_options: fast_opts(4096), chunk_size: NonZeroU64::new(unit as u64) };
+                        if let Ok(mut w) = LZMA2WriterMT::new(sink, o, requested) {
+                            let _ = w.write_all(&d2);
+                            let _ = w.flush();
+                            let _ = w.finish();
+                        }
+                    }
+                }
+            }));
+            return;
+        }
         if reader {
             let mut buf = vec![0u8; 1 + io_amount.min(70_000)];
             macro_rules! drive_reader {
@@ -181,7 +259,7 @@ pub fn run_case(ctx: &Ctx, idx: u64) -> Vec<CaseOut> {
                 ($w:expr) => {{
                     let mut w = $w;
                     match point {
-                        DropPoint::Immediately => drop(w),
+                        DropPoint::Immediately | DropPoint::Unwinding => drop(w),
                         DropPoint::AfterPartialIo | DropPoint::MidUnit => {
                             let _ = w.write_all(&d2[..io_amount]);
                             if point == DropPoint::MidUnit {
